@@ -13,4 +13,7 @@ func init() {
 	modelTable["github.com/Azure/retry/exponential.New"] = "ExpNew"
 	modelTable["github.com/Azure/retry/exponential.WithPolicy"] = "WithPolicy"
 	modelTable["(*github.com/Azure/retry/exponential.Backoff).Retry"] = "BackoffRetry"
+	modelTable["zombiezen.com/go/sqlite/sqlitex.Execute"] = "SqlitexExecute"
+	modelTable["zombiezen.com/go/sqlite/sqlitex.ExecuteTransient"] = "SqlitexExecute"
+	modelTable["zombiezen.com/go/sqlite/sqlitex.Transaction"] = "SqlitexTransaction"
 }
